@@ -86,8 +86,10 @@ Definition cstringb (s : bytes) : bool := forallb (fun b => (1 <=? b) && (b <? 2
 Fixpoint digits16 (fuel : nat) (z : Z) : list Z :=
   match fuel with
   | O => []
-  | S f => if z <=? 0 then [] else (z mod 65536) :: digits16 f (z / 65536)
+  | S f => if z <=? 0 then [] else Z.land z 65535 :: digits16 f (Z.shiftr z 16)
   end.
+(* (mask and shift rather than mod and div: the same values -- lemma digit_step --
+   but linear instead of quadratic in the extracted code) *)
 
 (* enough fuel: one per bit *)
 Definition places (z : Z) : list Z :=
@@ -233,10 +235,18 @@ Proof.
     rewrite IH. rewrite hint_recompose. now rewrite Z.mod_small by lia.
 Qed.
 
+Lemma digit_step z : Z.land z 65535 = z mod 65536 /\ Z.shiftr z 16 = z / 65536.
+Proof.
+  split.
+  - change 65535 with (Z.ones 16). rewrite Z.land_ones by lia. reflexivity.
+  - rewrite Z.shiftr_div_pow2 by lia. reflexivity.
+Qed.
+
 Lemma digits16_range f z : Forall (fun d => 0 <= d < 65536) (digits16 f z).
 Proof.
   revert z; induction f as [|f IH]; intros z; cbn [digits16]; [constructor|].
-  destruct (z <=? 0); constructor; [apply Z.mod_pos_bound; lia | apply IH].
+  destruct (z <=? 0); constructor; [|apply IH].
+  rewrite (proj1 (digit_step z)). apply Z.mod_pos_bound; lia.
 Qed.
 
 Lemma undigits_digits16 f z :
@@ -245,6 +255,7 @@ Proof.
   revert z; induction f as [|f IH]; intros z Hz Hlt.
   - cbn in *. lia.
   - cbn [digits16]. destruct (Z.leb_spec z 0); [cbn; lia|].
+    destruct (digit_step z) as [-> ->].
     cbn [undigits16]. rewrite IH.
     + pose proof (Z.div_mod z 65536 ltac:(lia)). lia.
     + apply Z.div_pos; lia.
